@@ -4,4 +4,5 @@
 Require Import ExtrOcamlBasic.
 From Casbin Require Import Cache.
 Separate Extraction
-  Cache.acl_run_step Cache.acl_init Cache.acl_enforce Cache.get_key Cache.ust Cache.cache_of.
+  Cache.acl_run_step Cache.acl_init Cache.acl_enforce Cache.get_key Cache.ust Cache.cache_of
+  Cache.cx_run_step Cache.cx_init Cache.cx_enforce.
